@@ -160,7 +160,9 @@ class DslApp:
         self.step(idx, "call")
         if environ["REQUEST_METHOD"] == "HEAD":
             beh["chunks"] = []
-            if beh.get("mode") == "fw":
+            if beh.get("mode") == "fw" and not beh.get("fw_on_head"):
+                # (with fw_on_head the application hands the file over for HEAD too, as static-file applications commonly do and leave
+                # it to the server to drop the body: only the close() obligations are judged then, C09)
                 beh["mode"] = "list"
         if beh.get("read_input"):
             environ["wsgi.input"].read()
